@@ -39,6 +39,8 @@ def shards(tier, seed):
             Lmax, wmax = 4, 2
         else:
             Lmax, wmax = (5, 3) if A <= 4 else (4, 2)
+        if A in (3, 4):
+            out.append(dict(name="alphabet_history/A%d" % A, fn="alphabet_history", A=A, Lmax=Lmax, wmax=wmax, weight=500))
         for fn in ("substitute", "insert", "delete", "randomize", "invalid"):
             out.append(dict(name="%s/A%d" % (fn, A), fn=fn, A=A, Lmax=Lmax, wmax=wmax,
                             weight=A ** Lmax))
@@ -411,9 +413,51 @@ def run_invalid(rec, sh):
     rec.sample(dict(fn="invalid", A=A, bad_X=list(bads), bad_motifs=list(mb)))
 
 
+def run_alphabet_history(rec, sh):
+    """Call histories within one process: the same motif STRING used under differently ordered alphabets (and as a tensor) in
+    alternation - the result must always follow the alphabet of the current call."""
+    from tangermeme import ersatz
+    A = sh["A"]
+    letters = ALPHA[:A]
+    perms = list(itertools.permutations(range(A)))
+    if A == 4:
+        perms = [perms[i] for i in (0, 23, 5, 9, 14, 18)]
+    L = 4
+    codes = all_codes(A, L)
+    X = ohe(codes, A)
+    Xc = X.clone()
+    for w in (1, 2):
+        for mcodes in all_codes(A, w):
+            for p1 in perms:
+                for p2 in perms:
+                    if p1 == p2:
+                        continue
+                    for fname in ("substitute", "insert", "multisubstitute"):
+                        for perm in (p1, p2, p1):
+                            # alphabet order `perm`: index k of the one-hot rows means letter letters[perm[k]]
+                            alpha = [letters[perm[k]] for k in range(A)]
+                            ms = "".join(alpha[c] for c in mcodes)          # the string that denotes codes `mcodes` under this alphabet
+                            ms_fixed = "".join(letters[c] for c in mcodes)     # the SAME string in every call -> different codes per alphabet
+                            want = numpy.array([[alpha.index(ch) for ch in ms_fixed]])
+                            case = dict(fn=fname, A=A, L=L, motif=ms_fixed, alphabet="".join(alpha), start=1, history=["".join(letters[q] for q in pp) for pp in (p1, p2, p1)])
+                            if fname == "substitute":
+                                _check_call(rec, "substitute", ersatz.substitute, X, Xc, [], True, _expect_sub(codes, want, 1), case, (ms_fixed,),
+                                            dict(start=1, alphabet=alpha))
+                            elif fname == "insert":
+                                _check_call(rec, "insert", ersatz.insert, X, Xc, [], True, _expect_ins(codes, want, 1), case, (ms_fixed,),
+                                            dict(start=1, alphabet=alpha))
+                            else:
+                                _check_call(rec, "multisubstitute", ersatz.multisubstitute, X, Xc, [], True, _expect_sub(codes, want, 1), case,
+                                            ([ms_fixed], 0), dict(start=1, alphabet=alpha))
+    rec.sample(dict(fn="alphabet_history", A=A, alphabets=["".join(letters[q] for q in pp) for pp in perms], motifs="all strings of width 1-2"))
+
+
 def run_shard(sh, tier, seed):
     rec = Recorder(PID, sh["name"])
     fn = sh["fn"]
+    if fn == "alphabet_history":
+        run_alphabet_history(rec, sh)
+        return rec.result()
     if fn in ("substitute", "insert"):
         run_substitute_insert(rec, sh, fn)
     elif fn == "delete":
